@@ -72,6 +72,25 @@ type Result struct {
 
 // Apply executes the event against the world.
 func (w *World) Apply(ev *Event) Result {
+	res := w.apply(ev)
+	if ev.Kind != "block" && ev.Kind != "check" && !res.Skipped {
+		w.CurBlock = append(w.CurBlock, ev)
+		if w.RecordDigests && !w.replaying {
+			switch ev.Kind {
+			case "tx":
+				w.Digests = append(w.Digests, "tx "+ev.Tag+" "+digestTx(res.Tx))
+			default:
+				w.Digests = append(w.Digests, fmt.Sprintf("%s %s err=%v", ev.Kind, ev.Tag, res.Err != nil))
+			}
+		}
+		if ev.Kind == "tx" {
+			w.maybeCrash("after_tx", len(w.CurBlock))
+		}
+	}
+	return res
+}
+
+func (w *World) apply(ev *Event) Result {
 	switch ev.Kind {
 	case "tx":
 		msgs, err := w.DecodeMsgs(ev)
